@@ -21,6 +21,7 @@ EXPLANATION = (
     "value with integer microsecond arithmetic from a UTC-aware epoch; (R13.5) no serialiser goes through a float epoch "
     "(datetime.timestamp()), which cannot represent microseconds outside roughly years 1700-2240. NOT decided: instant/offset "
     "equality for all years, folds and gaps; fastavro's and fromisoformat's behaviour."
+    " Rules added after the sixth blind round: (R13.6 = R18.5 of C18) both places that declare SQLite columns map the field type the same way."
 )
 RULE_SUMMARY = "instances: returns, readers of the display setting, text conversions in serialisers, encoder branches, storage-format rows"
 
